@@ -12,7 +12,11 @@
 package c20
 
 import (
+	"encoding/json"
 	"fmt"
+	"os"
+	"path/filepath"
+	"sort"
 	"strings"
 	"time"
 	"unicode/utf8"
@@ -320,6 +324,42 @@ var Alphabet = []string{
 	" ", "\n", "\t",
 }
 
+type corpusCase struct {
+	Name         string `json:"name"`
+	Fixed        string `json:"fixed"`
+	CSS          string `json:"css"`
+	SkipComments bool   `json:"skipComments"`
+}
+
+// corpus runs /verif/corpus/C20/*.json first: minimal inputs of repaired serializer defects; the
+// round trip must hold on each (judge) and the model must agree with the code (corr).
+func (rn *runner) corpus() error {
+	files, _ := filepath.Glob(filepath.Join(c06.CorpusDir("C20"), "*.json"))
+	sort.Strings(files)
+	for _, f := range files {
+		var c corpusCase
+		b, err := os.ReadFile(f)
+		if err == nil {
+			err = json.Unmarshal(b, &c)
+		}
+		if err != nil || c.CSS == "" {
+			return fmt.Errorf("corpus file %s: unreadable or empty (%v)", f, err)
+		}
+		before := rn.out.Evaluations
+		if err := rn.one(c.CSS, c.SkipComments, "corpus", 0); err != nil {
+			return err
+		}
+		if rn.out.Evaluations == before {
+			rn.out.Add(res.Finding{Kind: "judge", Op: "judge:corpus", Input: c.CSS, Key: c.Name,
+				Reason: "regression of " + c.Fixed + ": the corpus input no longer tokenizes without a crash / parse error"})
+		}
+	}
+	if len(files) == 0 {
+		rn.out.NotChecked = append(rn.out.NotChecked, "corpus/C20 (no files found)")
+	}
+	return nil
+}
+
 func Run(tier string, seed uint64, modelPath, repo string, out *res.Result) error {
 	m, err := mp.Start(modelPath)
 	if err != nil {
@@ -336,6 +376,9 @@ func Run(tier string, seed uint64, modelPath, repo string, out *res.Result) erro
 		"stylesheets from the C06 grammar generator in error-free mode (identifiers, strings, urls with escapes, control characters, quotes, newlines, non-ASCII) and " +
 		"rune-level mutations of them, the css-parsing-tests inputs; inputs whose tokens contain a parse error are skipped (counted); non-trivial = at least two " +
 		"non-comment top-level tokens or one block/function; distinct by skipComments flag + text"
+	if err := rn.corpus(); err != nil {
+		return err
+	}
 	for _, a := range Alphabet {
 		for _, b := range Alphabet {
 			sub := r.Sub()
